@@ -28,7 +28,7 @@ __CPROVER_requires(VFITS(offset, size) && VI < 40)
 __CPROVER_requires(__CPROVER_is_fresh(state, sizeof(ascon_state_t)))
 __CPROVER_requires(__CPROVER_is_fresh(data, size))
 __CPROVER_assigns(__CPROVER_object_whole(state))
-__CPROVER_ensures(CANON_B(state, VI) == (uint8_t)(__CPROVER_old(CANON_B(state, VI)) ^
+__CPROVER_ensures(CANON_B(state, VI) == (uint8_t)(CANON_B_OLD(state, VI) ^
         (VIN(VI, offset, size) ? data[VI - offset] : 0)));
 #endif
 
@@ -39,7 +39,7 @@ __CPROVER_requires(__CPROVER_is_fresh(state, sizeof(ascon_state_t)))
 __CPROVER_requires(__CPROVER_is_fresh(data, size))
 __CPROVER_assigns(__CPROVER_object_whole(state))
 __CPROVER_ensures(CANON_B(state, VI) ==
-        (VIN(VI, offset, size) ? data[VI - offset] : __CPROVER_old(CANON_B(state, VI))));
+        (VIN(VI, offset, size) ? data[VI - offset] : CANON_B_OLD(state, VI)));
 #endif
 
 #if defined(VERIF_ENFORCE_ascon_overwrite_with_zeroes)
@@ -47,7 +47,7 @@ void ascon_overwrite_with_zeroes(ascon_state_t *state, unsigned offset, unsigned
 __CPROVER_requires(VFITS(offset, size) && VI < 40)
 __CPROVER_requires(__CPROVER_is_fresh(state, sizeof(ascon_state_t)))
 __CPROVER_assigns(__CPROVER_object_whole(state))
-__CPROVER_ensures(CANON_B(state, VI) == (VIN(VI, offset, size) ? 0 : __CPROVER_old(CANON_B(state, VI))));
+__CPROVER_ensures(CANON_B(state, VI) == (VIN(VI, offset, size) ? 0 : CANON_B_OLD(state, VI)));
 #endif
 
 #if defined(VERIF_ENFORCE_ascon_extract_bytes)
@@ -57,7 +57,7 @@ __CPROVER_requires(__CPROVER_is_fresh(state, sizeof(ascon_state_t)))
 __CPROVER_requires(__CPROVER_is_fresh(data, size))
 __CPROVER_assigns(size > 0: __CPROVER_object_upto(data, size))
 __CPROVER_ensures(!VIN(VI, offset, size) || data[VI - offset] == CANON_B(state, VI))
-__CPROVER_ensures(CANON_B(state, VI) == __CPROVER_old(CANON_B(state, VI)));
+__CPROVER_ensures(CANON_B(state, VI) == CANON_B_OLD(state, VI));
 #endif
 
 #if defined(VERIF_ENFORCE_ascon_extract_and_add_bytes)
@@ -75,7 +75,7 @@ __CPROVER_requires(__CPROVER_is_fresh(input, size))
 __CPROVER_requires(!VIN(VI, offset, size) || verif_snap == input[VI - offset])
 __CPROVER_assigns(size > 0: __CPROVER_object_upto(output, size))
 __CPROVER_ensures(!VIN(VI, offset, size) || output[VI - offset] == (uint8_t)(verif_snap ^ CANON_B(state, VI)))
-__CPROVER_ensures(CANON_B(state, VI) == __CPROVER_old(CANON_B(state, VI)));
+__CPROVER_ensures(CANON_B(state, VI) == CANON_B_OLD(state, VI));
 #endif
 
 #if defined(VERIF_ENFORCE_ascon_extract_and_overwrite_bytes)
@@ -94,8 +94,8 @@ __CPROVER_requires(!VIN(VI, offset, size) || verif_snap == input[VI - offset])
 __CPROVER_assigns(__CPROVER_object_whole(state))
 __CPROVER_assigns(size > 0: __CPROVER_object_upto(output, size))
 __CPROVER_ensures(!VIN(VI, offset, size) || output[VI - offset] ==
-        (uint8_t)(verif_snap ^ __CPROVER_old(CANON_B(state, VI))))
-__CPROVER_ensures(CANON_B(state, VI) == (VIN(VI, offset, size) ? verif_snap : __CPROVER_old(CANON_B(state, VI))));
+        (uint8_t)(verif_snap ^ CANON_B_OLD(state, VI)))
+__CPROVER_ensures(CANON_B(state, VI) == (VIN(VI, offset, size) ? verif_snap : CANON_B_OLD(state, VI)));
 #endif
 
 #if defined(VERIF_ENFORCE_ascon_init)
@@ -107,7 +107,7 @@ __CPROVER_ensures(CANON_W(state, 0) == 0 && CANON_W(state, 1) == 0 && CANON_W(st
 #endif
 
 #if defined(VERIF_ENFORCE_ascon_copy)
-#define E_COPY(i) __CPROVER_ensures(CANON_W(dest, i) == CANON_W(src, i) && CANON_W(src, i) == __CPROVER_old(CANON_W(src, i)))
+#define E_COPY(i) __CPROVER_ensures(CANON_W(dest, i) == CANON_W(src, i) && CANON_W(src, i) == CANON_W_OLD(src, i))
 void ascon_copy(ascon_state_t *dest, const ascon_state_t *src)
 __CPROVER_requires(__CPROVER_is_fresh(dest, sizeof(ascon_state_t)))
 __CPROVER_requires(__CPROVER_is_fresh(src, sizeof(ascon_state_t)))
